@@ -72,6 +72,14 @@ CLAIMED.update({
    text="About 70 catalogue items singly and in PRNG sequences, with/without a custom handler, each followed by a probe RPC; the child must stay alive, the probe must return its own answer, a close must lead to a reconnect without plaintext frames.",
    note="trusted: refserver; harness drains the warning channel", ref="6/C16"),
 })
+CLAIMED.update({
+ "C14": dict(level="exploration", technique="runtime differential monitoring of the real tools on generated programs: tlparser vs an independent parser, the tlgen binary re-run N times per schema (byte-identical output), generated packages compiled and audited by reflection in a throw-away binary",
+   text="PRNG schemas inside the documented subset and every schema under schemes/: parser output vs independent parse, tlgen determinism over repeated runs (map-iteration order is the schedule dimension), generated code compiled with a stub Client and audited by reflection (ids, field kinds, flag bits, FlagIndex, nothing extra, one method per function). The shipped generator input must be accepted, compile and match.",
+   note="trusted: ref/tlschema as the reading of generated schema text, go toolchain; schemas outside the documented subset (mtproto.tl) are informational", ref="6/C14"),
+ "C19": dict(level="exploration", technique="runtime provenance (taint) monitor: interposed crypto/rand.Reader records every chunk served with caller frames; sinks observed outside the client; differential math/rand seeding pairs",
+   text="Every secret observed at a sink (nonce, new_nonce after the server's RSA decryption, g_b, SRP A) must be explained by bytes the OS source served to a /repo caller; identical math/rand seeding after client creation must not reproduce them. Only executed paths are judged: the 'all paths' quantifier exceeds what runtime monitoring can show (stated in DESIGN 6/C19); reach is reported as draws per calling function.",
+   note="limit: paths not executed are not judged; trusted: refserver RSA decryption, Go runtime stack walking for caller attribution", ref="6/C19"),
+})
 NOT_YET = {}
 
 def main():
